@@ -73,7 +73,7 @@ LAYER_KEYS = ['pressure_profile', 'temp_profile', 'density_profile', 'altitude_p
               'scaleheight_profile', 'mu_profile', 'active_mix_profile', 'inactive_mix_profile']
 CHEM_CLAUSES = ['chem_wellformed', 'mixing_ratios_aligned_with_layers', 'mu_is_weighted_mean_of_layer']
 GAS_POOL = ['H2', 'He', 'CO2', 'N2', 'CH4']      # besides H2O (the only gas with a registered cross-section)
-READ_CLAUSES = ['reads_repeatable', 'handed_arrays_unchanged']
+READ_CLAUSES = ['reads_repeatable', 'handed_arrays_unchanged', 'temperature_aligned_with_layers']
 STEP_CLAUSES = ['step_entries_present_and_positive', 'altitude_zero_at_surface', 'altitude_strictly_increasing',
                 'dz_is_level_difference', 'dz_is_H_ln_pressure_ratio', 'H_is_kT_over_mu_g', 'g_inverse_square',
                 'density_ideal_gas']
@@ -619,8 +619,13 @@ def reads_event(model, mid, n, declared, handed):
     pairs = [pair(nm, first[nm], second.get(nm)) for nm in first]
     pairs += [pair(nm, None, second[nm]) for nm in second if nm not in first]
     component_routes(model, n, declared, handed, pairs, second)
+    # a component that was TOLD one temperature per layer (array, file) or one for all (isothermal) exposes it, exactly
+    trec, told = declared['temp'], []
+    if trec['kind'] in ('array', 'file', 'isothermal') and (trec['kind'] == 'isothermal' or len(trec['T']) == n):
+        want = np.full(n, float(trec['T'])) if trec['kind'] == 'isothermal' else np.array(trec['T'], dtype=float)
+        told.append(pair('temp_profile:as-told:' + trec['kind'], want, second.get('temp_profile')))
     kinds = 'T=%s:chem=%s' % (declared['temp']['kind'], '+'.join(declared['chem']['gastypes']) or declared['chem']['kind'].split(':')[0])
-    return dict(ev='reads', id='%s:reads' % mid, n=n, kinds=kinds, pairs=pairs, handed=handed)
+    return dict(ev='reads', id='%s:reads' % mid, n=n, kinds=kinds, pairs=pairs, handed=handed, told=told)
 
 
 def route_events(model, mid, n, declared, lev, X, handed):
@@ -755,14 +760,29 @@ def run_traces(ctx, X):
         if rng.random() < 0.4:
             kinds.append('evaluated')
         cases += [(n, pkind, None) for pkind in kinds]
+    nraised = 0
     for n, pkind, force in cases:
         sub = rng.getrandbits(48)
-        model, declared, label = random_model(random.Random(sub), n, pkind, X, force)
         # no case is dropped because of what the code produced: the inputs are inside the quantifier
         # by construction (min < max; array / file layers decreasing in the declared orientation)
         mid = 'm%d' % nmodels
         nmodels += 1
-        ev, floats = events_of(model, mid, pkind, declared, X)
+        try:
+            model, declared, label = random_model(random.Random(sub), n, pkind, X, force)
+            ev, floats = events_of(model, mid, pkind, declared, X)
+        except Machinery:
+            raise
+        except Exception as e:
+            # building / initialising / reading a model whose settings are inside the quantifier raised: a verdict
+            # for this case (as the framework reports any exception of the implementation), the other cases go on
+            import traceback
+            where = traceback.extract_tb(e.__traceback__)[-1]
+            nraised += 1
+            ctx.verdict('implementation_raised', False,
+                        cls='%s@%s:%s:build-or-read:%s' % (type(e).__name__, os.path.basename(where.filename), where.name, pkind),
+                        detail='%s: %s (n=%d, %r)' % (type(e).__name__, e, n, force),
+                        vector=dict(trace=True, sub=sub, n=n, pkind=pkind, mid=mid, force=force, build=True))
+            continue
         steps = [e for e in ev if e['ev'] == 'step']
         recipe = dict(trace=True, sub=sub, n=n, pkind=pkind, mid=mid, force=force)
         if declared.get('raised'):
@@ -781,7 +801,7 @@ def run_traces(ctx, X):
                       'T=%s:%s' % (declared['temp']['kind'], 'after-evaluation' if pkind == 'evaluated' else 'as-built')] + \
                 ['gas:' + t for t in declared['chem']['gastypes']]:
             labels[extra] = labels.get(extra, 0) + 1
-    if nmodels < 20:
+    if nmodels < 20 or not events:
         raise Machinery('too few models generated')
     nbad_total = 0
     allbad = set()
@@ -845,7 +865,7 @@ def run_traces(ctx, X):
     # every built-in temperature component as built AND after evaluation; every gas type
     missing += [k for k in ['T=%s:%s' % (t, w) for t in TEMP_KINDS for w in ('as-built', 'after-evaluation')] + ['gas:' + t for t in GAS_TYPES]
                 if k not in labels]
-    if missing:
+    if missing and not nraised:
         raise Machinery('input classes never generated: %r' % missing)
     ctx.add_sample(dict(trace_event=next(e for e in events if e['ev'] == 'step')))
     ctx.add_sample(dict(trace_event=next(e for e in events if e['ev'] == 'profiles')))
@@ -924,6 +944,14 @@ def run_canaries(events, allbad):
         c = dict(rds[len(rds) // 2]); c['handed'] = [dict(p_) for p_ in c['handed']]; c['handed'][0]['same'] = False
         c['id'] = 'canary-handed'; can.append(c)
         want += ['canary-reread', 'canary-reread-whole', 'canary-handed']
+        tl = [e for e in rds if e['told'] and e['told'][0]['a']]
+        if tl:
+            d = dict(tl[0]); d['told'] = [dict(p_) for p_ in d['told']]
+            d['told'][0]['b'] = [list(x) for x in d['told'][0]['b']]; d['told'][0]['b'][-1][0] += 7
+            d['id'] = 'canary-told'; can.append(d)
+            want.append('canary-told')
+        elif not allbad:
+            raise Machinery('no reads event with a told temperature available for the canaries')
         if rds[0]['id'] not in allbad:
             g = dict(rds[0]); g['id'] = 'canary-reads-good'; can.append(g)
     elif not allbad:
@@ -1149,6 +1177,15 @@ def _replay(ctx, violations, X):
                          vec.get('tkind', 'array'))
             continue
         key = (vec['sub'], vec['n'], vec['pkind'])
+        if vec.get('build'):
+            try:
+                model, declared, _ = random_model(random.Random(vec['sub']), vec['n'], vec['pkind'], X, vec.get('force'))
+                events_of(model, vec['mid'], vec['pkind'], declared, X)
+                ok, what = True, 'built and read'
+            except Exception as e:
+                ok, what = False, '%s: %s' % (type(e).__name__, e)
+            ctx.verdict(v['clause'], ok, cls=v['cls'], detail='replay: %s' % what, vector=vec)
+            continue
         if key not in models:
             model, declared, _ = random_model(random.Random(vec['sub']), vec['n'], vec['pkind'], X, vec.get('force'))
             ev, floats = events_of(model, vec['mid'], vec['pkind'], declared, X)
